@@ -64,7 +64,10 @@ def main(argv=None):
         with open(a.replay) as f:
             rp = json.load(f)
         case = rp["case"] if "case" in rp else rp
-        got = mod.run_case(case)
+        try:
+            got = mod.run_case(case)
+        except Exception as ex:  # noqa
+            got = [(rp.get("key", f"{pid}|replay-raised|{type(ex).__name__}"), f"replay raised {type(ex).__name__}: {str(ex)[:120]}")]
         print(json.dumps({"case": case, "violations": got}, indent=1, default=core.jdefault))
         if got:
             print(f"VIOLATION property={pid} replay={os.path.abspath(a.replay)}")
@@ -91,8 +94,13 @@ def main(argv=None):
         if isinstance(case, dict) and "__crash__" in case:  # the exploration itself died: nothing to replay
             r1 = r2 = [(key, e["what"])]
         else:
-            r1 = mod.run_case(case)
-            r2 = mod.run_case(case)
+            def _replay():
+                try:
+                    return mod.run_case(case)
+                except Exception as ex:  # noqa  (a replay that raises is a reproduction of a crash, not a crash of the runner)
+                    return [(key, f"replay raised {type(ex).__name__}: {str(ex)[:120]}")]
+            r1 = _replay()
+            r2 = _replay()
         k1 = sorted({k for k, _ in r1})
         k2 = sorted({k for k, _ in r2})
         reproduced = key in k1 and k1 == k2
